@@ -108,25 +108,14 @@ Theorem C16_lookup_service_by_char_handle :
 Proof. exact lookup_service_of_char. Qed.
 
 (** JSON: for every profile reachable by any definition and ANY operation sequence
-    (removals included) whose UUIDs have an importable text form,
-    export (import (export p)) = export p, and the import does not raise. *)
-Theorem C16_import_export_id_partial :
-  forall (start : N) (sds : list sdef) (ops : list op) (q : profile),
-    1 <= start -> run (build start sds) ops = Done q -> profile_importable q = true ->
-    exists q', import (export q) = Done q' /\ export q' = export q.
-Proof. exact import_export_reachable. Qed.
-
-(** FULL STATEMENT (every profile) — refuted: a UUID built from a 128-bit int cannot be read
-    back (KNOWN-FINDING uuid128-from-int-not-importable). *)
-Definition C16_import_export_id_statement : Prop :=
+    (removals included), the import of its export does not raise and
+    export (import (export p)) = export p  (same handles, UUIDs, properties, security
+    requirements, values and descriptors). *)
+Theorem C16_import_export_id :
   forall (start : N) (sds : list sdef) (ops : list op) (q : profile),
     1 <= start -> run (build start sds) ops = Done q ->
     exists q', import (export q) = Done q' /\ export q' = export q.
-
-Theorem C16_import_export_id_refuted :
-  exists start sds ops q, 1 <= start /\ run (build start sds) ops = Done q
-                          /\ ~ exists q', import (export q) = Done q' /\ export q' = export q.
-Proof. exact import_export_refuted. Qed.
+Proof. exact import_export_reachable. Qed.
 
 (** Security requirements survive accesses -> int -> accesses -> int; an int keeps exactly
     its six defined bits (swept over one byte). *)
@@ -148,10 +137,9 @@ Example C16_nonvacuous :
   map fst (dump p0) = [1; 2; 3; 4; 5; 6]
   /\ exists q, run p0 [OpUpdate 0%nat; OpAdd (mkSD SKprimary (u16 0x1802) [] [c2])] = Done q
                /\ map fst (dump q) = [1; 2; 3; 4; 5; 6; 7; 8; 9; 10] /\ p_next q = 11
-               /\ profile_importable q = true
                /\ exists q', import (export q) = Done q' /\ export q' = export q.
 Proof.
   cbv zeta. split; [vm_compute; reflexivity|]. eexists. split; [vm_compute; reflexivity|].
-  split; [vm_compute; reflexivity|]. split; [vm_compute; reflexivity|]. split; [vm_compute; reflexivity|].
+  split; [vm_compute; reflexivity|]. split; [vm_compute; reflexivity|].
   eexists. split; vm_compute; reflexivity.
 Qed.
